@@ -111,8 +111,10 @@ ErrTokClass == << "plain",                    \* 1  errors.New
                                               \*    argument count, propagated)
                   "call_error_not_reported",  \* 4  such a *FunctionCallError itself
                   "call_error_reported",      \* 5  a *FunctionCallError marked function-reported itself
-                  "typed_nil" >>              \* 6  a non-nil error interface holding a nil pointer
-TypedNilTok == 6
+                  "typed_nil",                \* 6  a non-nil error interface holding a nil pointer,
+                  "typed_nil_slice",          \* 7  ... a nil slice of a slice type with an Error method,
+                  "typed_nil_map" >>          \* 8  ... a nil map of such a map type: in Go all three are errors
+                                              \*    (err != nil), and what the handler's own caller would see
 TokDom(t) == IF t = ErrorT THEN 0..Len(ErrTokClass) ELSE 0..2
 
 FnOutcome(kind, tok, reported) == [kind |-> kind, tok |-> tok, reported |-> reported]
@@ -126,10 +128,11 @@ FnOutcome(kind, tok, reported) == [kind |-> kind, tok |-> tok, reported |-> repo
 \*                function-reported, or a panic)
 \*   "open_panic" the handler panicked: the statement is silent (panic propagates, or a
 \*                function-reported error)
-\*   "open_nilerr" the handler returned a typed nil in the error slot (the nil of a concrete
-\*                nilable type on a leniently accepted cell, or an error interface holding a nil
-\*                pointer): "no error" and Go's typed-nil-is-an-error reading are both
-\*                defensible (the value, or a function-reported error)
+\*   "open_nilerr" the handler's last result has a concrete nilable type that implements error (a
+\*                leniently accepted cell) and is nil: "no error" and Go's typed-nil-is-an-error
+\*                reading are both defensible (the value, or a function-reported error).  A result
+\*                declared as `error` is different: an error interface that holds a nil pointer,
+\*                slice or map IS a non-nil error, the handler returned it, and Call reports it.
 
 \* nil is not a value of an interface-typed parameter; a foreign value is not of the declared type
 WellTyped(A, decl, call) ==
@@ -153,7 +156,7 @@ CallOutcome(A, sig, decl, call) ==
        ELSE IF nr = nv + 1 THEN
             LET t == sig.results[nr]
                 et == ResultTok(call, nr) IN
-            IF (et = 0 /\ A[t].nilable /\ ~A[t].iface) \/ (t = ErrorT /\ et = TypedNilTok)
+            IF et = 0 /\ A[t].nilable /\ ~A[t].iface
             THEN FnOutcome("open_nilerr", 0, FALSE)
             ELSE IF NonNil(A, t, et) THEN FnOutcome("error", et, TRUE) ELSE val
        ELSE FnOutcome("error", 0, FALSE)
@@ -167,7 +170,6 @@ CallDeclared(A, decl, call) ==
     IF Len(call.args) # Len(decl.inputs) THEN FnOutcome("error", 0, FALSE)
     ELSE IF ~WellTyped(A, decl, call) THEN FnOutcome("open_shape", 0, FALSE)
     ELSE IF call.beh.k = "panic" THEN FnOutcome("open_panic", 0, FALSE)
-    ELSE IF decl.err /\ ResultTok(call, NWanted(decl)) = TypedNilTok THEN FnOutcome("open_nilerr", 0, FALSE)
     ELSE IF decl.err /\ ResultTok(call, NWanted(decl)) # 0
          THEN FnOutcome("error", ResultTok(call, NWanted(decl)), TRUE)
     ELSE IF HasValue(decl) THEN FnOutcome("value", ResultTok(call, 1), FALSE)
